@@ -154,7 +154,7 @@ def normalise(sc_id, events):
                 rec["newsalt"] = salt_rank(b.get("salt"))
             if t == "container":
                 rec["items"] = [{"sid": r(it.get("sid")), "content": bool(it.get("content")), "req": r(it["body"].get("req")),
-                                 "val": _val(it["body"].get("val"))} for it in b.get("items", [])]
+                                 "val": _val(it["body"].get("val")), "what": it["body"].get("what", "")} for it in b.get("items", [])]
             out.append(rec)
         elif k == "SrvSend2":
             out.append({"e": "SrvSend", "t": "result", "sid": 0, "content": False, "req": r(e.get("req")), "val": _val(e.get("val")),
@@ -255,6 +255,7 @@ K_WIRE = {"msgid-not-multiple-of-4", "msgid-not-from-clock", "msgid-not-increasi
 K_SALT = {"accepted-request-resent", "rejected-request-not-resent", "salt-not-persisted", "request-nobody-asked-for"}
 K_CONN = {"reconnect-with-key-exchange", "update-not-surfaced"}
 ALL_KINDS = ["object", "bool", "vecint", "vecobj", "error"]
+JUNK = ["unsolicited", "repeated", "unknown", "truncated"]
 
 
 def tlc_schedules(ctx, cfg, num, depth=150):
@@ -295,8 +296,11 @@ def project(hist, rng, kinds, gate="send.genid", tagbase=10):
             steps.append({"a": "Release", "c": h["c"]})
         elif a == "Answer":
             who = [c for c in h["who"] if c in tag]
-            steps.append({"a": "Answer", "tags": [tag[c] for c in who], "container": len(who) > 1 or rng.random() < 0.15,
-                          "gzip": [rng.random() < 0.3 for _ in who], "n": 250})
+            st = {"a": "Answer", "tags": [tag[c] for c in who], "container": len(who) > 1 or rng.random() < 0.15,
+                  "gzip": [rng.random() < 0.3 for _ in who], "n": 250}
+            if h.get("junk"):   # the model's item nobody waits for; which kind and where in the container is free
+                st.update(container=True, junk=rng.choice(JUNK), junkat=rng.choice(["first", "last"]))
+            steps.append(st)
         elif a == "Rotate":
             steps.append({"a": "Rotate"})
     steps += [{"a": "Drain"}, {"a": "Settle"}]
